@@ -30,6 +30,8 @@ TRUSTED = ["CPython ast", "asyncio task cancellation"]
 
 def run(chk) -> None:
     repo = chk.repo
+    from ._engine import engine_view
+    chk.extra["helpers_inlined"] = engine_view(repo)
     m = repo.module(CL)
     methods = repo.methods(RUNNER)
     rn = methods["run"]
